@@ -1,6 +1,7 @@
 package main
 
 import (
+	"math"
 	"sort"
 	"strings"
 
@@ -87,6 +88,53 @@ func (r *btreeRunner) Do(op []string) string {
 		var items []string
 		r.t.Traverse(func(k, v int) {
 			items = append(items, "["+itoa(k)+","+itoa(v)+"]")
+		})
+		return plist(items)
+	}
+	panic("harness: bad op " + op[0])
+}
+
+// btreeFRunner: the same B-tree instantiated with float64 keys.  The int keys of the protocol are mapped to
+// 1 + k*2^-40 (exact, order preserving, injective): neighbouring keys differ by a relative 1e-12, so any notion of
+// key equality looser than == (a tolerance, a rounding) merges them.  The answers must be those of the int tree.
+type btreeFRunner struct{ t *btree.BTree[float64, int] }
+
+func fkey(k int) float64    { return 1 + float64(k)/(1<<40) }
+func fkeyInv(x float64) int { return int(math.Round((x - 1) * (1 << 40))) }
+
+func (r *btreeFRunner) Do(op []string) string {
+	switch op[0] {
+	case "put":
+		r.t.Put(fkey(atoi(op[1])), atoi(op[2]))
+		return "ok"
+	case "remove":
+		r.t.Remove(fkey(atoi(op[1])))
+		return "ok"
+	case "fillasc":
+		for a, i := atoi(op[1]), 0; i < atoi(op[2]); i++ {
+			r.t.Put(fkey(a+i), a+i)
+		}
+		return "ok"
+	case "removeasc":
+		for a, i := atoi(op[1]), 0; i < atoi(op[2]); i++ {
+			r.t.Remove(fkey(a + i))
+		}
+		return "ok"
+	case "get":
+		v, ok := r.t.Get(fkey(atoi(op[1])))
+		return itoa(v) + " " + b2s(ok)
+	case "size":
+		return itoa(r.t.Size())
+	case "isempty":
+		return b2s(r.t.IsEmpty())
+	case "height":
+		return itoa(r.t.Height())
+	case "shape":
+		return "nohook"
+	case "traverse":
+		var items []string
+		r.t.Traverse(func(k float64, v int) {
+			items = append(items, "["+itoa(fkeyInv(k))+","+itoa(v)+"]")
 		})
 		return plist(items)
 	}
@@ -184,7 +232,12 @@ func init() {
 	kinds["bst"] = func(p []string) Runner {
 		return &bstRunner{bstree.New[int, int](heapComp(p[0]))}
 	}
-	kinds["btree"] = func(p []string) Runner { return &btreeRunner{btree.New[int, int]()} }
+	kinds["btree"] = func(p []string) Runner {
+		if len(p) > 0 && p[0] == "f" {
+			return &btreeFRunner{btree.New[float64, int]()}
+		}
+		return &btreeRunner{btree.New[int, int]()}
+	}
 	kinds["trie"] = func(p []string) Runner {
 		var q trie.Queuer[string] = queue.New[string]()
 		if len(p) > 0 && p[0] == "linked" {
@@ -342,6 +395,9 @@ func genC10(g *Gen) {
 		}
 		ops = append(ops, "size", "height", "shape", "traverse")
 		g.Emit("btree", nil, ops)
+		if i%2 == 0 || g.Thorough() { // the same history on the float64-keyed instantiation
+			g.Emit("btree", []string{"f"}, ops)
+		}
 	}
 	// long runs through the bulk lines: standard sizes and sizes around thresholds a change introduced
 	longs := []int{3000}
